@@ -35,13 +35,16 @@ ASSUMPTIONS = ["theorems assume a well-formed tree (Coll.wf: names non-empty, do
                "add_collection / from_module produce when no two names clash; clashing trees are compared "
                "model-vs-code only",
                "names with an empty component ('sub.', 'a..b') are not canonical dotted names (don't-care for the oracle)",
-               "listing_once is proved for trees with one auto_dash_names setting (mixed settings: known finding N4)",
+               "listing_once / listing_aliases_match are proved for trees with one auto_dash_names setting (mixed settings: "
+               "known finding N4); primary_names_distinct and listings_agree hold without that restriction",
                "the `name` field of collection nodes in the JSON listing is not constrained (adjudicated don't-care)"]
 LEVEL_TEXT = ("Lean 4 proofs over ALL well-formed namespace trees and all component-wise names: the names accepted by "
               "Parser(contexts=to_contexts()) are exactly the canonical names task_with_config resolves "
               "(cli_names_eq_lookup), an accepted name runs the task lookup returns (accepted_runs_lookup), the "
-              "flat/nested/json listings contain each task binding exactly once with exactly its aliases "
-              "(listing_once*), and transform is idempotent / last-wins so every name is normalised consistently "
+              "flat/nested/json listings contain each task binding exactly once with exactly its aliases and agree "
+              "with each other (listing_once_all_formats, listings_agree), for one auto_dash_names setting each task "
+              "appears exactly once under its primary name - primary names are pairwise distinct - with its aliases "
+              "(primary_names_distinct, listing_once, listing_aliases_match), and transform is idempotent / last-wins so every name is normalised consistently "
               "(transform_consistent); the model is tied to invoke.collection + Program listing code on every run by "
               "a differential check on generated trees (real objects serialised) and direct oracles")
 TECHNIQUE = ("Lean 4 theorems by induction over the namespace tree (custom induction principle for the nested "
